@@ -19,6 +19,13 @@ static uint8_t vx_exp[9];
 /*@FUNC read_uint64@*/
 /*@FUNC read_int64@*/
 /*@FUNC write_type_and_length@*/
+/* write_bignum: ghost inputs of the slice (sign and number of magnitude bytes), tag stub */
+static bool vx_is_neg; static size_t vx_len; static unsigned vx_tags; static int vx_tag;
+static void vx_write_tag(int t) { vx_tags++; vx_tag = t; }
+#define VX_PAYLOAD(n) do { } while (0)
+/*@FUNC write_bignum_head@*/
+/*@FUNC write_uint64_value@*/
+/*@FUNC write_int64_value@*/
 
 #ifdef VX_CBMC
 static void havoc_source(void)
@@ -45,6 +52,9 @@ void h_write(void)
     vx_sink_n = 0;
     write_type_and_length(m, len);
 }
+void h_bignum_head(void) { vx_sink_n = 0; vx_tags = 0; vx_is_neg = nondet_bool(); vx_len = nondet_size(); write_bignum_head(); }
+void h_write_u64(void) { vx_sink_n = 0; write_uint64_value(nondet_u64()); }
+void h_write_i64(void) { vx_sink_n = 0; write_int64_value(nondet_i64()); }
 /* L-CBOR-RT: decode(encode(m, x)) == x, consuming exactly what was written */
 void h_roundtrip(void)
 {
